@@ -112,6 +112,46 @@ func init() {
 			map[string]bool{"handshake.RequestUsingReaderWriter": true, "writer.WriteMsg": true, "c.metadataStore.ContactRequestOutgoingSent": true}) + ".\n"
 		body += "Definition incoming_request_steps : list (string * bool) := " + coqPairs(guardedCalls(funcDecl(crm, "contactRequestsManager", "handleIncomingRequest")),
 			map[string]bool{"handshake.ResponseUsingReaderWriter": true, "reader.ReadMsg": true, "bytes.Equal": true, "contact.CheckFormat": true, "c.metadataStore.ContactRequestIncomingReceived": true}) + ".\n"
+		// the two roles: their steps in order (each one's failure returns at once) and every return statement of the
+		// function, in source order
+		roleSteps := func(rel, name string) (string, string) {
+			rf := parse(rel)
+			fd := funcDecl(rf, "", name)
+			keep := map[string]bool{}
+			var rets []string
+			if fd != nil && fd.Body != nil {
+				ast.Inspect(fd.Body, func(n ast.Node) bool {
+					switch x := n.(type) {
+					case *ast.FuncLit:
+						return false
+					case *ast.CallExpr:
+						if f := exprString(x.Fun); strings.HasPrefix(f, "hc.") {
+							keep[f] = true
+						}
+					case *ast.ReturnStmt:
+						var rs []string
+						for _, r := range x.Results {
+							e := exprString(r)
+							if i := strings.Index(e, ".Wrap("); i >= 0 {
+								e = "error"
+							}
+							rs = append(rs, e)
+						}
+						rets = append(rets, strings.Join(rs, ", "))
+					}
+					return true
+				})
+			}
+			delete(keep, "hc.toTyberStepMutator")
+			return coqPairs(guardedCalls(fd), keep), coqStrList(rets)
+		}
+		rq, rqr := roleSteps("internal/handshake/request.go", "RequestUsingReaderWriter")
+		rs, rsr := roleSteps("internal/handshake/response.go", "ResponseUsingReaderWriter")
+		body += "\n(* internal/handshake: the steps of the two roles in order, each with whether its failure makes the function return at\n   once, and the return statements of the two functions in source order (a wrapped error is \"error\") *)\n"
+		body += "Definition requester_role_steps : list (string * bool) := " + rq + ".\n"
+		body += "Definition requester_role_returns : list string := " + rqr + ".\n"
+		body += "Definition responder_role_steps : list (string * bool) := " + rs + ".\n"
+		body += "Definition responder_role_returns : list string := " + rsr + ".\n"
 		write("Handshake.v", body)
 	})
 }
